@@ -480,6 +480,9 @@ pub enum WorkerOutcome {
     Died(String),
     /// No answer within the watchdog limit (also after a solitary re-run with the long limit)
     Timeout,
+    /// Not run: more than 200 cases of this space had already hung (the verdict is settled, the
+    /// report says that the space was not walked to its end)
+    Skipped,
 }
 
 struct Child {
@@ -548,6 +551,7 @@ pub fn run_in_workers(kind: &str, cases: &[String], limit_s: u64) -> Vec<WorkerO
     let next = AtomicUsize::new(0);
     let nworkers = threads().min(n.max(1));
     let confirmed_timeouts = AtomicUsize::new(0);
+    let all_timeouts = AtomicUsize::new(0);
     std::thread::scope(|s| {
         for _ in 0..nworkers {
             s.spawn(|| {
@@ -557,8 +561,20 @@ pub fn run_in_workers(kind: &str, cases: &[String], limit_s: u64) -> Vec<WorkerO
                     if i >= n {
                         break;
                     }
-                    let mut out =
-                        run_one(&mut child, kind, &cases[i], Duration::from_secs(limit_s));
+                    // once four hangs are confirmed with the long limit and 32 cases have timed out, the
+                    // verdict is settled: the rest of the space is still walked, with a 2 s watchdog, so
+                    // that a tree that hangs on thousands of cases ends in minutes rather than hours
+                    if all_timeouts.load(Ordering::Relaxed) >= 200 {
+                        *results[i].lock().unwrap() = Some(WorkerOutcome::Skipped);
+                        continue;
+                    }
+                    let settled = confirmed_timeouts.load(Ordering::Relaxed) >= 4
+                        && all_timeouts.load(Ordering::Relaxed) >= 32;
+                    let limit = if settled { limit_s.min(2) } else { limit_s };
+                    let mut out = run_one(&mut child, kind, &cases[i], Duration::from_secs(limit));
+                    if out == WorkerOutcome::Timeout {
+                        all_timeouts.fetch_add(1, Ordering::Relaxed);
+                    }
                     if out == WorkerOutcome::Timeout && confirmed_timeouts.load(Ordering::Relaxed) < 4 {
                         // re-run alone with a long limit before it is reported (only for the first few:
                         // once hangs are confirmed, later ones are reported after the short limit)
@@ -591,6 +607,8 @@ pub fn worker_main(subject: fn(&str) -> String) -> ! {
             rlim_max: 4 << 30,
         };
         libc::setrlimit(libc::RLIMIT_AS, &lim);
+        // a worker never outlives its supervisor (a hung subject would spin for ever otherwise)
+        libc::prctl(libc::PR_SET_PDEATHSIG, libc::SIGKILL);
     }
     install_panic_hook();
     let h = std::thread::Builder::new()
